@@ -147,17 +147,24 @@ def linen_vars_to_nnx_attrs(variables: tp.Mapping[str, Any]) -> dict[str, Any]:
 def nnx_attrs_to_linen_vars(nnx_attrs: dict) -> dict:
   """Convert a dict of NNX variables (or variable states) to Linen-style variables."""
   linen_structured = {}
-  for kp, v in traversals.flatten_mapping(nnx_attrs).items():
+
+  def convert(v):
     if isinstance(v, variablelib.Variable):
-      col_name = variablelib.variable_name_from_type(type(v))
-      v = to_linen_var(v.to_state())
+      return variablelib.variable_name_from_type(type(v)), to_linen_var(v.to_state())
     elif isinstance(v, variablelib.VariableState):
-      col_name = variablelib.variable_name_from_type(v.type)
-      v = to_linen_var(v)
+      return variablelib.variable_name_from_type(v.type), to_linen_var(v)
     elif isinstance(v, graph.NodeDef) or isinstance(v, graph.NodeRef):
-      col_name = 'nnx'  # an nnx.GraphDef for some ToLinen submodule
+      return 'nnx', v  # an nnx.GraphDef for some ToLinen submodule
+    raise ValueError(f'Cannot infer collection name from value: {v}')
+
+  for kp, v in traversals.flatten_mapping(nnx_attrs).items():
+    if isinstance(v, (tuple, list)) and v:
+      # a tuple / list valued Linen variable (e.g. what `sow` accumulates) was
+      # converted to one NNX variable per element
+      cols, vals = zip(*(convert(x) for x in v))
+      col_name, v = cols[0], type(v)(vals)
     else:
-      raise ValueError(f'Cannot infer collection name from value: {v}')
+      col_name, v = convert(v)
     linen_structured[(col_name, *kp)] = v
   variables = traversals.unflatten_mapping(linen_structured)
   return variables
